@@ -45,8 +45,57 @@ static void pattern_aplusat(const csc_t *G, const int_t *perm_c, unsigned char *
     }
 }
 
+/* deep elimination trees at large n (the quadratic reference above stops at a few hundred columns): k interleaved
+   chains, A(i,i) and A(i+k,i); natural ordering; the checks are linear: bijection, A*Pc columns, parent > child,
+   every subtree a contiguous range ending at its root, and the tree is the relabelled forest of k chains */
+static int order_deep(const case_t *c)
+{
+    int_t n = cint(c, "n", 1000000), k = cint(c, "chains", 1); int symm = (int)cint(c, "symm", 0);
+    if (k < 1) k = 1;
+    csc_t G; memset(&G, 0, sizeof G);
+    G.m = G.n = n; G.colptr = xmalloc((n + 2) * sizeof(int_t)); G.rowind = xmalloc(((size_t)2 * n + 2) * sizeof(int_t)); G.val = xmalloc(((size_t)2 * n + 2) * sizeof(elem_t));
+    int_t q = 0;
+    for (int_t j = 0; j < n; ++j) { G.colptr[j] = q; G.rowind[q] = j; G.val[q++] = MKE(4, 0); if (j + k < n) { G.rowind[q] = j + k; G.val[q++] = MKE(-1, 0); } }
+    G.colptr[n] = q; G.nnz = q;
+    SuperMatrix A; CREATE_COMPCOL(&A, n, n, G.nnz, G.val, G.rowind, G.colptr, SLU_NC, SLU_DT, SLU_GE);
+    int_t *perm_c = xmalloc((n + 1) * sizeof(int_t));
+    jo_begin(c); jo_str("sub", "deep"); jo_int("n", n); jo_int("nnz", G.nnz); jo_int("chains", k);
+    get_perm_c(0, &A, perm_c);
+    superlumt_options_t opt; memset(&opt, 0, sizeof opt);
+    opt.refact = NO; opt.SymmetricMode = symm ? YES : NO; opt.nprocs = 1;
+    opt.etree = intMalloc(n + 1); opt.colcnt_h = intMalloc(n + 1); opt.part_super_h = intMalloc(n + 1);
+    SuperMatrix AC; memset(&AC, 0, sizeof AC);
+    sp_colorder(&A, perm_c, &opt, &AC);
+    if (!is_perm(perm_c, n)) jo_fail("C10|perm_c-not-bijection", "sp_colorder returned a perm_c that is not a permutation (n = %ld)", (long)n);
+    else {
+        NCPformat *Cs = AC.Store;
+        for (int_t i = 0; i < n; ++i) if (Cs->colbeg[perm_c[i]] != G.colptr[i] || Cs->colend[perm_c[i]] != G.colptr[i + 1]) { jo_fail("C10|AC-columns", "column perm_c[%ld] of A*Pc is not column %ld of A", (long)i, (long)i); break; }
+        int ok = 1;
+        for (int_t j = 0; j < n && ok; ++j) if (opt.etree[j] <= j || opt.etree[j] > n) { ok = 0; jo_fail("C10|etree-range", "etree[%ld] = %ld", (long)j, (long)opt.etree[j]); }
+        /* column i has parent i + k (or is a root): the reported tree must be that forest relabelled by perm_c */
+        for (int_t i = 0; i < n && ok; ++i) {
+            int_t want = i + k < n ? perm_c[i + k] : n;
+            if (opt.etree[perm_c[i]] != want) { ok = 0; jo_fail("C10|etree-mismatch", "reported parent of column %ld is %ld, expected %ld", (long)perm_c[i], (long)opt.etree[perm_c[i]], (long)want); }
+        }
+        if (ok) {
+            int_t *size = xcalloc(n + 1, sizeof(int_t)), *fd = xmalloc((n + 1) * sizeof(int_t));
+            for (int_t j = 0; j < n; ++j) { size[j] += 1; fd[j] = j; }
+            for (int_t j = 0; j < n; ++j) { int_t p = opt.etree[j]; if (p < n) size[p] += size[j]; }
+            for (int_t j = 0; j < n; ++j) { int_t p = opt.etree[j]; if (p < n && fd[j] < fd[p]) fd[p] = fd[j]; }
+            for (int_t j = 0; j < n; ++j) if (j - fd[j] + 1 != size[j]) { jo_fail("C10|not-postordered", "subtree of column %ld has %ld nodes but spans [%ld,%ld]", (long)j, (long)size[j], (long)fd[j], (long)j); break; }
+            free(size); free(fd);
+        }
+    }
+    jo_end();
+    if (AC.Store) Destroy_CompCol_Permuted(&AC);
+    SUPERLU_FREE(opt.etree); SUPERLU_FREE(opt.colcnt_h); SUPERLU_FREE(opt.part_super_h);
+    Destroy_SuperMatrix_Store(&A); free(perm_c); csc_free(&G);
+    return 0;
+}
+
 int cmd_order(const case_t *c)
 {
+    if (!strcmp(cstr(c, "sub", "colorder"), "deep")) return order_deep(c);
     rng_t rng = { (uint64_t)cint(c, "seed", 1) * 2654435761ULL + 31337 };
     csc_t G;
     if (gen_matrix(c, &rng, &G)) { jo_begin(c); jo_str("error", "gen_matrix"); jo_end(); return 2; }
